@@ -102,4 +102,95 @@ theorem decFields_cons (S : Schema) (n : Nat) (f : Field) (fs : List Field) (c :
   rw [decFields.eq_def]
   exact Res.ite_ite_bind _ _ _ _ _ _
 
+
+/-! ## Normalisation never turns a populated skippable field into a zero one -/
+
+theorem normSlice_zero (S : Schema) (k : Kind) (tag : Nat) (xs : List Val) (ver : Option Ver) :
+    normSlice S 0 k tag xs ver = none := by rw [normSlice]
+
+theorem norm_isZero (S : Schema) (n : Nat) (k : Kind) (tag : Nat) (v : Val) (ver : Option Ver)
+    (v' : Val) (w : Option Ver) (hz : k.zeroFaithful = true)
+    (h : normK S n k tag v ver = some (v', w)) (hv : v.isZero = false) : v'.isZero = false := by
+  cases n with
+  | zero => rw [normK_zero] at h; contradiction
+  | succ n =>
+    by_cases hs : k.scalar = true
+    · obtain ⟨_, _, _, _, _, _, _, hzz, _⟩ := scalar_rt S n k hs tag v v' ver w h
+      exact hzz hv
+    · cases k <;> simp only [Kind.scalar, not_true_eq_false] at hs <;>
+        simp only [Kind.zeroFaithful] at hz <;> try contradiction
+      case ptr k' =>
+        rw [normK_ptr] at h
+        split at h
+        · simp [Val.isZero] at hv
+        · rename_i x
+          obtain ⟨_, h⟩ := ite_eq_some h
+          cases hx : normK S n k' tag x ver with
+          | none => simp only [hx] at h; contradiction
+          | some p =>
+            obtain ⟨x', w'⟩ := p
+            simp only [hx] at h
+            obtain ⟨rfl, -⟩ := pair_eq (Option.some.inj h)
+            rfl
+        · contradiction
+      case slice k' =>
+        rw [normK_slice] at h
+        split at h
+        · rename_i xs
+          obtain ⟨_, h⟩ := ite_eq_some h
+          cases hx : normSlice S n k' tag xs ver with
+          | none => simp only [hx] at h; contradiction
+          | some p =>
+            obtain ⟨xs', w'⟩ := p
+            simp only [hx] at h
+            obtain ⟨rfl, -⟩ := pair_eq (Option.some.inj h)
+            cases xs with
+            | nil => simp [Val.isZero] at hv
+            | cons x xs =>
+              cases n with
+              | zero => rw [normSlice_zero] at hx; contradiction
+              | succ n =>
+                rw [normSlice_cons] at hx
+                cases hy : normK S n k' tag x ver with
+                | none => simp only [hy] at hx; contradiction
+                | some p =>
+                  obtain ⟨y, w1⟩ := p
+                  simp only [hy] at hx
+                  cases hys : normSlice S n k' tag xs w1 with
+                  | none => simp only [hys] at hx; contradiction
+                  | some p =>
+                    obtain ⟨ys, w2⟩ := p
+                    simp only [hys] at hx
+                    obtain ⟨rfl, -⟩ := pair_eq (Option.some.inj hx)
+                    rfl
+        · contradiction
+      case iface =>
+        rw [normK_iface] at h
+        split at h
+        · simp [Val.isZero] at hv
+        · rename_i d x
+          obtain ⟨_, h⟩ := ite_eq_some h
+          cases hx : normK S n (S.dyn d).kind tag x ver with
+          | none => simp only [hx] at h; contradiction
+          | some p =>
+            obtain ⟨x', w'⟩ := p
+            simp only [hx] at h
+            obtain ⟨rfl, -⟩ := pair_eq (Option.some.inj h)
+            rfl
+        · contradiction
+      case any =>
+        rw [normK_any] at h
+        split at h
+        · obtain ⟨_, e⟩ := ite_some_eq h
+          obtain ⟨rfl, -⟩ := pair_eq e
+          rfl
+        · contradiction
+      case anyStruct =>
+        rw [normK_anyStruct] at h
+        split at h
+        · obtain ⟨rfl, -⟩ := pair_eq (Option.some.inj h)
+          exact hv
+        · contradiction
+      all_goals (rw [normK.eq_def] at h; simp at h)
+
 end Kmip
